@@ -98,7 +98,11 @@ def run(tier, seed):
     t0 = time.time(); idx, info = flow.prepare()
     files, notes, cover = lemmas(idx)
     per_fn = 6 if tier == 'quick' else 60
+    # extraction direction: round trips through the crate (differential; the identity from_euler o to_euler = id is the oracle)
+    from .. import euler_rt
+    rstat, rbad = euler_rt.run(idx, seed, 12 if tier == 'quick' else 120)
+    notes['euler_round_trips'] = rstat
     return f1.run('C09', tier, seed, idx, info, t0, files, notes, cover, alg.BOILER, per_fn,
         'one algebraic lemma per rotation constructor (axis-angle, single-axis, all 24 Euler orders) of Quat/DQuat/Mat3/Mat3A/Mat4/DMat3/DMat4 in the three backends, over an arbitrary field with sin/cos uninterpreted (odd/even); correspondence: %d random calls per constructor (the libm results are not modelled: functions that reach sin/cos are compared only through the model of the surrounding arithmetic)' % per_fn,
         ['reference formulas (elementary rotations, Rodrigues, Hamilton product) in harness/props/C09.py and coq/theories/RotAlg.v', 'sin(-x) = -sin x, cos(-x) = cos x as section hypotheses'],
-        ['to_euler / to_axis_angle / to_scaled_axis round trips and float-level error near singularities are not proved'], footer=alg.FOOTER)
+        ['to_euler / to_axis_angle / to_scaled_axis round trips and float-level error near singularities are not proved'], footer=alg.FOOTER, extra={'extra_violations': rbad[:10]})
